@@ -11,13 +11,13 @@ Lemma stop_guards_nil : et_stop_guards_nil = true.
 Proof. reflexivity. Qed.
 
 (* ---------- generic ---------- *)
-Ltac break_match :=
-  match goal with
-  | H : context [match ?x with _ => _ end] |- _ => destruct x eqn:?
-  | H : context [if ?x then _ else _] |- _ => destruct x eqn:?
-  end.
-
 Ltac inv H := inversion H; subst; clear H.
+
+Ltac destr_in H :=
+  match type of H with
+  | context [match ?x with _ => _ end] => destruct x eqn:?
+  | context [if ?x then _ else _] => destruct x eqn:?
+  end.
 
 Lemma statuses_app a b : statuses (a ++ b) = statuses a ++ statuses b.
 Proof.
@@ -41,6 +41,12 @@ Lemma has_crash_app a b : has_crash (a ++ b) = has_crash a || has_crash b.
 Proof.
   induction a as [|x a IH]; cbn; [reflexivity|].
   destruct x; cbn; rewrite ?IH; reflexivity.
+Qed.
+
+Lemma count_disc_app a b : count_disc (a ++ b) = count_disc a + count_disc b.
+Proof.
+  induction a as [|x a IH]; cbn [app count_disc]; [reflexivity|].
+  destruct x; rewrite ?IH; lia.
 Qed.
 
 (* ====================================================================================== *)
@@ -73,41 +79,196 @@ Qed.
 (* unfolds one step completely: every branch the code can take becomes a goal *)
 Ltac cstep_cases H :=
   unfold cstep, poll_guard, ckill, kill_step, send_sig, set_kpc, deliver, ccrash, pid_exists, is_run in H;
-  cbn in H; repeat (break_match; cbn in H; try discriminate); inv H; cbn in *.
+  cbn in H; repeat (destr_in H; cbn in H; try discriminate H); inv H; cbn in *.
 
-(* ---------- at most one terminal status and nothing after it ---------- *)
-Definition cinv_status (s : cst) (t : list out) : Prop :=
+(* ---------- the main invariant ---------- *)
+Definition pend_ok (p : option status) : Prop := p = None \/ p = Some FINISHED \/ p = Some KILLED.
+
+(* what has been reported so far, per phase; a posted final state is FINISHED or KILLED and
+   implies that Kill has closed the client *)
+Definition cinv (s : cst) (t : list out) : Prop :=
+  pend_ok (c_pending s) /\
+  (c_pending s <> None -> c_rpc s = false) /\
   match c_phase s with
-  | CNone | CDial | CPoll => statuses t = []
+  | CNone => statuses t = [] /\ c_pending s = None /\ c_rpc s = false /\ c_active s = false
+  | CDial => statuses t = [] /\ c_pending s = None /\ c_rpc s = false
+  | CPoll => statuses t = []
   | CWait => statuses t = [RUNNING]
   | CEnd => exists x, terminal x = true /\ (statuses t = [x] \/ statuses t = [RUNNING; x])
   end.
 
-Lemma cinv_status_step b s t a s' o :
-  cinv_status s t -> cstep b s a = (s', o) -> cinv_status s' (t ++ o).
+Lemma cinv_init : cinv cinit [].
+Proof. unfold cinv, pend_ok; cbn. intuition congruence. Qed.
+
+Lemma cinv_step b s t a s' o :
+  cinv s t -> cstep b s a = (s', o) -> cinv s' (t ++ o).
 Proof.
-  intros HI HS. unfold cinv_status in *. rewrite statuses_app.
-  destruct s as [ph rpc act pend kpc tg proc gc dn cr].
-  cstep_cases HS; rewrite ?app_nil_r; try assumption;
-    try (rewrite HI; cbn; try reflexivity);
-    try (eexists; split; [|left; reflexivity]; reflexivity);
-    try (eexists; split; [|right; reflexivity]; reflexivity).
-  all: try (destruct HI as [x [Hx [E|E]]]; exists x; split; [exact Hx|];
-            rewrite E; cbn; auto).
-  all: try (destruct pend as [p|]; [destruct p|destruct d as [[|?]|]]; cbn;
-            eexists; split; [|right; reflexivity]; reflexivity).
+  intros (HP & HR & HI0) HS. unfold cinv in *. rewrite statuses_app.
+  destruct s as [ph rpc act pend kpc tg proc gc dn cr]. cbn in HP, HR, HI0.
+  destruct a; try (destruct ph; cbn in HI0);
+  cstep_cases HS; rewrite ?app_nil_r.
+  all: repeat match goal with H : _ /\ _ |- _ => destruct H end; subst; try discriminate.
+  all: (split; [unfold pend_ok in *; intuition congruence
+              | split; [intro Hn; first [reflexivity | congruence | specialize (HR Hn); congruence] | ]]).
+  all: try exact HI0.
+  all: try (repeat split; first [assumption|reflexivity]).
+  all: try (match goal with HI : statuses _ = _ |- _ => rewrite HI end; cbn; reflexivity).
+  all: try (match goal with HI : statuses _ = _ |- _ => rewrite HI end; cbn; split; reflexivity).
+  all: try (match goal with HI : statuses _ = _ |- _ => rewrite HI end; cbn; eexists; (split; [|left; reflexivity]); reflexivity).
+  all: try (match goal with HI : statuses _ = _ |- _ => rewrite HI end; cbn; eexists; (split; [|right; reflexivity]); reflexivity).
+  - (* reaper, a final state was posted *)
+    rewrite HI0; cbn. exists s. split; [|right; reflexivity].
+    destruct HP as [HP|[HP|HP]]; inv HP; reflexivity.
+  - (* reaper, nothing posted *)
+    rewrite HI0; cbn. exists (default_final d). split; [|right; reflexivity].
+    destruct d as [[|p]|]; reflexivity.
 Qed.
 
-Lemma status_ok_of_cinv s t : cinv_status s t -> status_ok (statuses t) = true.
+Lemma cinv_reach b l s t : crun b cinit l = (s, t) -> cinv s t.
 Proof.
-  unfold cinv_status. destruct (c_phase s); intro H; try (rewrite H; reflexivity).
-  destruct H as [x [Hx [E|E]]]; rewrite E; cbn; rewrite Hx; reflexivity.
+  intro HR. change t with ([] ++ t).
+  eapply (crun_inv cinv b (cinv_step b)); [exact cinv_init|exact HR].
+Qed.
+
+(* ---------- at most one terminal status and nothing after it ---------- *)
+Lemma status_ok_of_cinv s t : cinv s t -> status_ok (statuses t) = true.
+Proof.
+  intros (_ & _ & H). destruct (c_phase s).
+  - destruct H as [H _]; rewrite H; reflexivity.
+  - destruct H as [H _]; rewrite H; reflexivity.
+  - rewrite H; reflexivity.
+  - rewrite H; reflexivity.
+  - destruct H as [x [Hx [E|E]]]; rewrite E; cbn; rewrite Hx; reflexivity.
 Qed.
 
 Lemma ctl_one_terminal b l s t :
   crun b cinit l = (s, t) -> status_ok (statuses t) = true.
+Proof. intro HR. apply (status_ok_of_cinv s). eapply cinv_reach; exact HR. Qed.
+
+Lemma status_ok_count l : status_ok l = true -> (count_terminal l <= 1)%nat.
 Proof.
-  intro HR. apply (status_ok_of_cinv s).
-  change t with ([] ++ t).
-  eapply (crun_inv cinv_status b (cinv_status_step b)); [|exact HR]. reflexivity.
+  unfold count_terminal. induction l as [|x l IH]; cbn; [lia|].
+  destruct (terminal x) eqn:E; cbn.
+  - destruct l; [cbn; lia|discriminate].
+  - exact IH.
 Qed.
+
+(* ---------- a task killed on request reports FINISHED or KILLED ---------- *)
+Definition is_fk (x : status) : bool := match x with FINISHED | KILLED => true | _ => false end.
+
+(* "a Kill request has posted its final state (or the task is over)" *)
+Definition cposted (s : cst) : Prop :=
+  c_phase s = CEnd \/
+  (c_pending s <> None /\ pend_ok (c_pending s) /\ c_rpc s = false /\
+   c_phase s <> CNone /\ c_phase s <> CDial).
+
+Lemma cposted_step b s a s' o :
+  cposted s -> cstep b s a = (s', o) -> cposted s' /\ forallb is_fk (statuses o) = true.
+Proof.
+  intros HQ HS. unfold cposted, pend_ok in *.
+  destruct s as [ph rpc act pend kpc tg proc gc dn cr]. cbn in HQ.
+  destruct HQ as [HQ|(Hp & Hk & Hr & Hn1 & Hn2)]; subst.
+  - cstep_cases HS; (split; [left; reflexivity|reflexivity]).
+  - destruct pend as [p|]; [|congruence].
+    assert (Hfk : is_fk p = true) by (destruct Hk as [Hk|[Hk|Hk]]; inv Hk; reflexivity).
+    destruct ph; try congruence;
+    cstep_cases HS;
+    try (split; [left; reflexivity|]; cbn; rewrite ?Hfk; reflexivity);
+    (split; [right; repeat split; try congruence; try assumption|reflexivity]).
+Qed.
+
+Lemma cposted_run b l s s' t :
+  cposted s -> crun b s l = (s', t) -> forallb is_fk (statuses t) = true.
+Proof.
+  revert s s' t. induction l as [|a l IH]; intros s s' t HQ HR; cbn in HR.
+  - inv HR. reflexivity.
+  - destruct (cstep b s a) as [s1 o1] eqn:E1. destruct (crun b s1 l) as [s2 o2] eqn:E2. inv HR.
+    destruct (cposted_step _ _ _ _ _ HQ E1) as [HQ1 H1].
+    rewrite statuses_app, forallb_app, H1. cbn. eapply IH; eassumption.
+Qed.
+
+(* an accepted Kill (the task was active, the executor did not crash) posts a final state *)
+Lemma ckill_posts b s t s' o :
+  cinv s t -> c_crashed s = false ->
+  cstep b s AKill = (s', o) -> has_crash o = false -> count_disc o = 0 ->
+  cposted s' /\ statuses o = [].
+Proof.
+  intros (HP & HR & HI) Hcr HS HC HD. unfold cposted, pend_ok in *.
+  destruct s as [ph rpc act pend kpc tg proc gc dn cr]. cbn in HP, HR, HI, Hcr. subst cr.
+  destruct ph; cbn in HI;
+  repeat match goal with H : _ /\ _ |- _ => destruct H end; subst;
+  cstep_cases HS; try discriminate;
+  try (exfalso; assert (true = false) by (apply HR; congruence); discriminate).
+  all: try (split; [left; reflexivity|reflexivity]).
+  all: split; [right; repeat split; try congruence; intuition congruence|reflexivity].
+Qed.
+
+Lemma ctl_killed_not_failed b l1 l2 s1 t1 s2 o s3 t3 :
+  crun b cinit l1 = (s1, t1) -> c_crashed s1 = false ->
+  cstep b s1 AKill = (s2, o) -> has_crash o = false -> count_disc o = 0 ->
+  crun b s2 l2 = (s3, t3) ->
+  forallb is_fk (statuses (o ++ t3)) = true.
+Proof.
+  intros H1 Hcr HK HC HD H2.
+  destruct (ckill_posts b s1 t1 s2 o (cinv_reach _ _ _ _ H1) Hcr HK HC HD) as [HQ Ho].
+  rewrite statuses_app, Ho. cbn. eapply cposted_run; eassumption.
+Qed.
+
+(* ---------- crashes ---------- *)
+Definition ck_ok (s : cst) : Prop :=
+  c_crashed s = false /\ (c_phase s = CPoll -> c_rpc s = true).
+(* Kill arrives when the task is not (any more) active, or is up and has not been killed yet *)
+Definition kill_safe (s : cst) : Prop :=
+  c_active s = false \/ (c_rpc s = true /\ c_phase s = CWait).
+
+Lemma ck_ok_step b s a s' o :
+  ck_ok s -> (a = AKill -> kill_safe s) -> cstep b s a = (s', o) ->
+  ck_ok s' /\ has_crash o = false.
+Proof.
+  intros [Hc Hp] Hk HS. unfold ck_ok, kill_safe in *.
+  destruct s as [ph rpc act pend kpc tg proc gc dn cr]. cbn in Hc, Hp, Hk. subst cr.
+  destruct a.
+  2: { (* AKill *)
+    destruct (Hk eq_refl) as [Ha|[Ha Hb]]; subst;
+    cstep_cases HS; try (split; [split; [reflexivity|intro; congruence]|reflexivity]). Show. }
+  all: destruct ph; try (rewrite (Hp eq_refl) in * );
+    cstep_cases HS;
+    (split; [split; [reflexivity|intro; first [congruence|reflexivity|auto]]|reflexivity]).
+Qed.
+
+Lemma ctl_no_crash_gen b l : forall s,
+  ck_ok s ->
+  (forall l1 l2, l = l1 ++ AKill :: l2 -> kill_safe (fst (crun b s l1))) ->
+  has_crash (snd (crun b s l)) = false /\ c_crashed (fst (crun b s l)) = false.
+Proof.
+  induction l as [|a l IH]; intros s HK HS; cbn.
+  - split; [reflexivity|exact (proj1 HK)].
+  - destruct (cstep b s a) as [s1 o1] eqn:E1.
+    assert (Ha : a = AKill -> kill_safe s).
+    { intro; subst. exact (HS [] l eq_refl). }
+    destruct (ck_ok_step _ _ _ _ _ HK Ha E1) as [HK1 Hc1].
+    specialize (IH s1 HK1).
+    destruct (crun b s1 l) as [s2 o2] eqn:E2. cbn in *.
+    rewrite has_crash_app, Hc1. cbn. apply IH.
+    intros l1 l2 El. specialize (HS (a :: l1) l2). cbn in HS. rewrite E1 in HS.
+    subst l. specialize (HS eq_refl). destruct (crun b s1 l1); exact HS.
+Qed.
+
+Lemma ctl_no_crash_partial b l :
+  (forall l1 l2, l = l1 ++ AKill :: l2 -> kill_safe (fst (crun b cinit l1))) ->
+  has_crash (snd (crun b cinit l)) = false /\ c_crashed (fst (crun b cinit l)) = false.
+Proof.
+  apply ctl_no_crash_gen. split; [reflexivity|intro H; discriminate H].
+Qed.
+
+Definition nbeh : beh := mkBeh (DExit 0) false false true None false.
+
+Lemma ctl_crash_kill_before_dial :
+  has_crash (snd (crun nbeh cinit [ALaunch; AKill])) = true.
+Proof. vm_compute. reflexivity. Qed.
+Lemma ctl_crash_kill_during_poll :
+  has_crash (snd (crun nbeh cinit [ALaunch; ADialOk; APollTick; AKill; APollTick])) = true.
+Proof. vm_compute. reflexivity. Qed.
+Lemma ctl_crash_second_kill :
+  has_crash (snd (crun nbeh cinit [ALaunch; ADialOk; APollReady; AKill; AKill])) = true.
+Proof. vm_compute. reflexivity. Qed.
